@@ -66,6 +66,15 @@ static const unsigned char asn384dsWrap[] =
 };
 # endif
 
+# ifdef USE_SHA512
+static const unsigned char asn512dsWrap[] =
+{
+    0x30, 0x51, 0x30, 0x0D, 0x06, 0x09, 0x60, 0x86,
+    0x48, 0x01, 0x65, 0x03, 0x04, 0x02, 0x03, 0x05,
+    0x00,  0x04, 0x40
+};
+# endif
+
 static const unsigned char asn1dsWrap[] =
 {
     0x30, 0x21, 0x30, 0x09, 0x06, 0x05, 0x2B, 0x0E,
@@ -100,6 +109,13 @@ int32_t privRsaEncryptSignedElement(psPool_t *pool, psRsaKey_t *key,
     case SHA384_HASH_SIZE:
         inlenWithAsn = inlen + ASN_OVERHEAD_LEN_RSA_SHA2;
         Memcpy(c, asn384dsWrap, ASN_OVERHEAD_LEN_RSA_SHA2);
+        Memcpy(c + ASN_OVERHEAD_LEN_RSA_SHA2, in, inlen);
+        break;
+# endif
+# ifdef USE_SHA512
+    case SHA512_HASH_SIZE:
+        inlenWithAsn = inlen + ASN_OVERHEAD_LEN_RSA_SHA2;
+        Memcpy(c, asn512dsWrap, ASN_OVERHEAD_LEN_RSA_SHA2);
         Memcpy(c + ASN_OVERHEAD_LEN_RSA_SHA2, in, inlen);
         break;
 # endif
